@@ -362,6 +362,7 @@ def run_case(case_name, fn, cfg, opts):
     twin_done = False
     diff_done = False
     for p in paths:
+        point = None      # one concrete point of this path (lazily)
         if p.exc is not None:
             tb = ''.join(traceback.format_exception(
                 type(p.exc), p.exc, p.exc.__traceback__)[-3:])
@@ -459,6 +460,27 @@ def run_case(case_name, fn, cfg, opts):
                             lhs=T.show(lt_, 4)))
                     continue
                 res.nontrivial += 1
+                # cheap refutation first: at one concrete point of the path
+                # (a model of assumptions + path condition, computed once per
+                # path) the two sides are evaluated; a difference is a
+                # candidate counter-example and goes through the usual replay
+                # on the float code.  Agreement proves nothing: the solver
+                # decides.
+                if point is None:
+                    point = _path_point(solver, p)
+                w = _differs_at(point, lt_, rt_) if point else None
+                if w is not None:
+                    nv, ni, ne = (len(res.violations), len(res.inconclusive),
+                                  len(res.errors))
+                    _violation(res, fn, cfg, opts, solver, p, label, w,
+                               'the sides differ at a point of the path',
+                               lt_, rt_)
+                    if len(res.violations) > nv:
+                        continue
+                    # not reproduced on the float code: forget it, ask the
+                    # solver
+                    del res.inconclusive[ni:]
+                    del res.errors[ne:]
                 tq = time.time()
                 v, env = solver.prove(p.conds, T.eq(lt_, rt_))
                 dq = time.time() - tq
@@ -656,6 +678,35 @@ def _settle(res, fn, cfg, opts, solver, p, label, verdict, env, shown,
     # refuted: concretise and replay
     _violation(res, fn, cfg, opts, solver, p, label, env,
                'solver counter-example', lt_, rt_)
+
+
+def _path_point(solver, p):
+    try:
+        r, m = solver.model(p.conds + _spread(p.conds, 3))
+        if r != 'sat':
+            r, m = solver.model(p.conds)
+        if r != 'sat':
+            return {}
+        return _fl(m)
+    except Exception:
+        return {}
+
+
+def _differs_at(point, lt_, rt_):
+    env = dict(point)
+    try:
+        for n in T.variables([lt_, rt_]):
+            if n not in env and n != 'pi':
+                env[n] = _default_value(n)
+        ufs = UFRegistry()
+        a = T.evalf(lt_, env, {'*': ufs})
+        b = T.evalf(rt_, env, {'*': ufs})
+    except (T.Undefined, OverflowError, ZeroDivisionError,
+            NotImplementedError, KeyError, ValueError):
+        return None
+    if close(a, b, 1e-6):
+        return None
+    return env
 
 
 def _numeric_witness(solver, p, lt_, rt_):
